@@ -471,6 +471,38 @@ func checkC04(c *Check, p *Program) {
 				// and can it reach a further iteration at all (it must, via the process call)
 				c.Decide(!again, "C04.R5", FuncName(serve)+" reconnect restarts processing", p.InstrPos(cc), "every cycle through the reconnect passes a fresh call of "+FuncName(processFn), "a reconnect can be followed by another reconnect/iteration without re-entering "+FuncName(processFn)+": the expected number is not restarted")
 			}
+			// the converse: processing is re-entered (and the expected number with it
+			// restarted at 0) only by way of a connect call - the gateway keeps counting
+			// on a connection that was not re-established
+			if len(connCalls) > 0 {
+				procBlock := e.Site.Block()
+				hasConn := map[*ssa.BasicBlock]bool{}
+				for _, cc := range connCalls {
+					if cc.Block() == procBlock && instrIndex(cc) > instrIndex(e.Site) {
+						continue // after the call, in the same block: does not guard the next entry by itself
+					}
+					hasConn[cc.Block()] = true
+				}
+				back := false
+				if !hasConn[procBlock] {
+					seen := map[*ssa.BasicBlock]bool{}
+					work := append([]*ssa.BasicBlock{}, procBlock.Succs...)
+					for len(work) > 0 {
+						b := work[len(work)-1]
+						work = work[:len(work)-1]
+						if b == procBlock {
+							back = true
+							break
+						}
+						if seen[b] || hasConn[b] {
+							continue
+						}
+						seen[b] = true
+						work = append(work, b.Succs...)
+					}
+				}
+				c.Decide(!back, "C04.R5", FuncName(serve)+" processing restarts only with a connection", p.InstrPos(e.Site), "every cycle back to "+FuncName(processFn)+" passes a connect call", FuncName(processFn)+" can be re-entered without a connect call in between: the expected number restarts at 0 on a connection on which the gateway keeps counting")
+			}
 		}
 		c.Floor("C04.R5", "reconnect sites in the serve loop", n, 1)
 	}
